@@ -81,7 +81,12 @@ structure RsaKey where
   n : Bs
   e : Bs
   d : Option Bs
-  deriving Repr
+  crt : Option (Bs × Bs × Bs × Bs × Bs) := none
+
+def RsaKey.priv (k : RsaKey) : RsaPriv := { n := k.n, e := k.e, d := k.d, crt := k.crt }
+
+/-- whether OpenSSL can perform a private-key operation at all -/
+def RsaKey.hasPriv (k : RsaKey) : Bool := k.d.isSome || k.crt.isSome
 
 /-- `jose_openssl_jwk_to_RSA` (members that are present must decode; p and q, and
     dp, dq, qi, only together) -/
@@ -97,7 +102,11 @@ def rsaKeyOf (jwk : Json) : Option RsaKey :=
       let factorsOk := (p.isNone && q.isNone) || (p.isSome && q.isSome)
       let crtOk := (dp.isNone && dq.isNone && qi.isNone) || (dp.isSome && dq.isSome && qi.isSome)
       if factorsOk && crtOk then
-        some ⟨n, e, match jwk.get? "d" with | some dj => bytesOfJson (some dj) | none => none⟩
+        some { n := n, e := e,
+               d := (match jwk.get? "d" with | some dj => bytesOfJson (some dj) | none => none),
+               crt := (match p, q, dp, dq, qi with
+                 | some a, some b, some c, some d', some f => some (a, b, c, d', f)
+                 | _, _, _, _, _ => none) }
       else none
     | _, _, _, _, _, _, _ => none
   | _, _, _ => none
@@ -222,9 +231,7 @@ def sigLeaf (P : Prims) (name : String) (jwk : Json) : Option (Bs → Bs → Opt
     | _, _ => none
   | some (.rsa pss h) =>
     (rsaSigKey jwk).map fun key => fun msg rnd =>
-      match key.d with
-      | none => none
-      | some d => P.rsaSign pss h key.n d msg rnd
+      if key.hasPriv then P.rsaSign pss h key.priv msg rnd else none
   | none => none
 
 /-- `prefix(io, sig)`: the protected text and a '.'; refuses a protected header that is not text -/
